@@ -901,3 +901,63 @@ fn clock_out_of_range_year() {
     assert!(Timestamp::now().is_err());
     assert!(Timestamp::try_from(any_time()).is_err());
 }
+
+// ------------------------------------------------------------------ C08 / C16: the f64 wrappers delegate (negated offset, floored receiver)
+pub static mut K_AD_BITS: u64 = 0;
+pub static mut K_AD_SELF: i64 = 0;
+pub static mut K_AD_CALLS: u32 = 0;
+pub fn ts_add_days_probe(ts: Timestamp, days: f64) -> Result<Timestamp, Error> {
+    unsafe { K_AD_BITS = days.to_bits(); K_AD_SELF = ts.usecs(); K_AD_CALLS += 1; }
+    if kani::any() { Ok(any_timestamp()) } else { Err(Error::DateOutOfRange) }
+}
+pub fn od_add_days_probe(od: crate::OracleDate, days: f64) -> Result<crate::OracleDate, Error> {
+    unsafe { K_AD_BITS = days.to_bits(); K_AD_SELF = od.usecs(); K_AD_CALLS += 1; }
+    if kani::any() { Ok(crate::OracleDate::MIN) } else { Err(Error::DateOutOfRange) }
+}
+
+/// Timestamp::sub_days(d) is add_days(-d) on the same timestamp (the sign flip is exact for every double)
+#[kani::proof]
+#[kani::stub(crate::timestamp::Timestamp::add_days, ts_add_days_probe)]
+fn ts_sub_days_delegates() {
+    let ts = any_timestamp();
+    let d: f64 = kani::any();
+    unsafe { K_AD_CALLS = 0; }
+    let _ = ts.sub_days(d);
+    assert!(unsafe { K_AD_CALLS } == 1 && unsafe { K_AD_SELF } == ts.usecs());
+    assert!(unsafe { K_AD_BITS } == (-d).to_bits());
+}
+
+pub static mut K_FROM_ARG: i64 = 0;
+pub static mut K_FROM_CALLS: u32 = 0;
+pub const K_FROM_RESULT: i64 = 1_000_000 * 777;
+/// `From<Timestamp> for oracle::Date` replaced by "records its argument, returns a fixed marker value"
+/// (its contract - floor to the second - is proved in Verus)
+pub fn od_from_ts_probe(ts: Timestamp) -> crate::OracleDate {
+    unsafe { K_FROM_ARG = ts.usecs(); K_FROM_CALLS += 1; }
+    unsafe { crate::OracleDate::from_usecs_unchecked(K_FROM_RESULT) }
+}
+
+/// oracle::Date::sub_days, Timestamp::oracle_add_days / oracle_sub_days delegate to oracle::Date::add_days
+/// (with the negated offset; the Timestamp variants first convert the receiver with From<Timestamp>)
+#[kani::proof]
+#[kani::stub(crate::oracle::Date::add_days, od_add_days_probe)]
+#[kani::stub(<crate::oracle::Date as core::convert::From<crate::timestamp::Timestamp>>::from, od_from_ts_probe)]
+fn od_days_wrappers_delegate() {
+    use crate::OracleDate;
+    let d: f64 = kani::any();
+    let q: i64 = kani::any();
+    kani::assume(q >= K_TS_MIN / 1_000_000 && q <= K_TS_MAX / 1_000_000);
+    let od = unsafe { OracleDate::from_usecs_unchecked(q * 1_000_000) };
+    unsafe { K_AD_CALLS = 0; }
+    let _ = od.sub_days(d);
+    assert!(unsafe { K_AD_CALLS } == 1 && unsafe { K_AD_SELF } == q * 1_000_000 && unsafe { K_AD_BITS } == (-d).to_bits());
+    let ts = any_timestamp();
+    unsafe { K_AD_CALLS = 0; K_FROM_CALLS = 0; }
+    let _ = ts.oracle_add_days(d);
+    assert!(unsafe { K_FROM_CALLS } == 1 && unsafe { K_FROM_ARG } == ts.usecs());
+    assert!(unsafe { K_AD_CALLS } == 1 && unsafe { K_AD_SELF } == K_FROM_RESULT && unsafe { K_AD_BITS } == d.to_bits());
+    unsafe { K_AD_CALLS = 0; K_FROM_CALLS = 0; }
+    let _ = ts.oracle_sub_days(d);
+    assert!(unsafe { K_FROM_CALLS } == 1 && unsafe { K_FROM_ARG } == ts.usecs());
+    assert!(unsafe { K_AD_CALLS } == 1 && unsafe { K_AD_SELF } == K_FROM_RESULT && unsafe { K_AD_BITS } == (-d).to_bits());
+}
